@@ -370,7 +370,21 @@ class Executor(object):
     def op_steps(self, tid, op):
         g = self.gens[op['g']]
         try:
-            r = canon([np.asarray(s) for s in g(make_x(op['x']), op['method'], op['n'], op['order'])])
+            if op.get('partial'):
+                # a step iterator that is only partly consumed and stays alive (legal use of the
+                # public generator API; whatever it holds on to must not leak into later calls)
+                it = iter(g(make_x(op['x']), op['method'], op['n'], op['order']))
+                got = []
+                for _ in range(int(op['partial'])):
+                    try:
+                        got.append(np.asarray(next(it)))
+                    except StopIteration:
+                        break
+                self.__dict__.setdefault('_live_iters', []).append(it)
+                self._count('partial_step_iterator_kept')
+                r = canon(got)
+            else:
+                r = canon([np.asarray(s) for s in g(make_x(op['x']), op['method'], op['n'], op['order'])])
         except Exception as e:  # noqa: BLE001
             r = canon(e)
         return {'rec': r, 'diag': True}
